@@ -308,3 +308,45 @@ func unquotedWildcard(s string) bool {
 	}
 	return false
 }
+
+// ---- URI binding (NISTIR 7695 section 6.1.2: bind_to_URI, transform_for_uri, pct_encode, pack) ----
+
+// specTransformForURI binds one value string for a URI; ok is false when
+// the value is outside what the harness checks (upper-case letters, which a
+// URI does not preserve, or quoting the specification does not provide for).
+func specTransformForURI(v string) (out string, ok bool) {
+	var b strings.Builder
+	for i := 0; i < len(v); i++ {
+		c := v[i]
+		switch {
+		case c >= 'A' && c <= 'Z':
+			return "", false
+		case isAlnum(c) || c == '_':
+			b.WriteByte(c)
+		case c == '\\':
+			if i+1 >= len(v) {
+				return "", false
+			}
+			i++
+			n := v[i]
+			switch {
+			case n == '-' || n == '.':
+				b.WriteByte(n)
+			case n == '\\' || n == '*' || n == '?' || strings.IndexByte(puncChars, n) >= 0:
+				const hexd = "0123456789abcdef"
+				b.WriteByte('%')
+				b.WriteByte(hexd[n>>4])
+				b.WriteByte(hexd[n&15])
+			default:
+				return "", false
+			}
+		case c == '?':
+			b.WriteString("%01")
+		case c == '*':
+			b.WriteString("%02")
+		default:
+			return "", false
+		}
+	}
+	return b.String(), true
+}
